@@ -1405,7 +1405,7 @@ func ruleC12DecidedByEqual(c *Ctx) {
 		}
 		nFail++
 		byEq := false
-		var selfCompared []string
+		var selfCompared, firstOnly []string
 		guards := guardsOf(ret)
 		// the search of the bucket may be a helper that answers "found" only under the equality function's yes
 		for _, g := range guardsOf(ret) {
@@ -1456,6 +1456,19 @@ func ruleC12DecidedByEqual(c *Ctx) {
 					byEq = true
 				}
 				_ = ib
+				// every member of the bucket: the position taken from the bucket is the variable of a loop over it, not
+				// one fixed element
+				for _, side := range []ssa.Value{a, b} {
+					for _, pos := range indexPositions(side) {
+						if ld, ok := pos.(*ssa.UnOp); ok && ld.Op == token.MUL {
+							if ia, ok := ld.X.(*ssa.IndexAddr); ok {
+								if _, fixed := ia.Index.(*ssa.Const); fixed {
+									firstOnly = append(firstOnly, c.pos(gc))
+								}
+							}
+						}
+					}
+				}
 				// two different items: the positions are not one and the same variable
 				for _, pa := range indexPositions(a) {
 					for _, pb := range indexPositions(b) {
@@ -1468,6 +1481,7 @@ func ruleC12DecidedByEqual(c *Ctx) {
 				}
 			}
 		}
+		c.R.Check(len(firstOnly) == 0, rule, "uniqueItems:whole-bucket", c.pos(ret), "an item is compared with every member of its hash bucket", fmt.Sprintf("the item is compared with one fixed member of its hash bucket only (at %v): the hasher gives unequal values the same hash (false and null, [] and {}), so a duplicate of the second of two colliding items is never compared with it and the array passes", firstOnly))
 		c.R.Check(len(selfCompared) == 0, rule, "uniqueItems:two-different-items", c.pos(ret), "the equality function is given two different positions of the array", fmt.Sprintf("the equality call that decides uniqueItems (at %v) is given the same position of the array twice: an item is compared with itself, so every two items whose hashes collide are reported as duplicates", selfCompared))
 		c.R.Check(byEq, rule, "uniqueItems:failure-guarded-by-equality", c.pos(ret), "uniqueItems fails only when the equality function says two items are equal", "uniqueItems can fail (or its verdict is taken) without the equality function having compared the two items: equal hashes of unequal items would be reported as duplicates")
 	})
